@@ -133,6 +133,8 @@ func runScenario(sc scenario, work string) result {
 		return runSeq(sc, work)
 	case "sched":
 		return runSched(sc, work)
+	case "finalize":
+		return runFinalize(sc, work)
 	case "evict":
 		return runEvict(sc, work)
 	case "close":
@@ -171,11 +173,11 @@ func schedReqKinds(st snapStream, streams int) []areq {
 	next := uint64(st.NextSegmentID)
 	op := int(st.NextParts)
 	l := []areq{
-		blockingReq(0, next, op),            // the next part of the open segment
-		blockingReq(0, next, op+1),          // the one after
-		blockingReq(0, next+1, -1),          // the next segment
-		blockingReq(0, next+1, 0),           // part 0 of the next segment
-		blockingReq(0, next, -1),            // the open segment, no part given
+		blockingReq(0, next, op),   // the next part of the open segment
+		blockingReq(0, next, op+1), // the one after
+		blockingReq(0, next+1, -1), // the next segment
+		blockingReq(0, next+1, 0),  // part 0 of the next segment
+		blockingReq(0, next, -1),   // the open segment, no part given
 		blockingReq(0, next, op, "_HLS_skip", "YES"),
 		{Kind: "media", Stream: 0},
 		{Kind: "multi"},
@@ -450,12 +452,12 @@ func main() {
 			"of re-check vs stream-marked-closed, RAM and Directory, LL/FMP4/MPEGTS; distinct by SHA-256 of the scenario; non-trivial = (seq) at least one " +
 			"Ready, one Block and one 400 among the well-formed blocking probes, (sched) at least one requester slept and a rotation happened, " +
 			"(close) at least one request was pending when Close began",
-		"samples":         samples,
-		"distribution":    dist,
-		"oracle_failures": failures,
-		"cases":           cases,
-		"shards":          shardIdx + 1,
-		"errors":          infra,
+		"samples":                       samples,
+		"distribution":                  dist,
+		"oracle_failures":               failures,
+		"cases":                         cases,
+		"shards":                        shardIdx + 1,
+		"errors":                        infra,
 		"traces_validated_against_impl": len(cases),
 	}
 	j, _ := json.MarshalIndent(resj, "", " ")
@@ -659,15 +661,38 @@ func genSched(seed uint64, n int, thorough bool, work string, errs *[]string) []
 				continue
 			}
 			for _, frames := range [][]bool{
-				{false, false, false, false},                             // two part rotations
-				{false, false, false, false, false, false},               // three
-				{false, false, true, false, false},                       // a part, a segment, a part
+				{false, false, false, false},                                   // two part rotations
+				{false, false, false, false, false, false},                     // three
+				{false, false, true, false, false},                             // a part, a segment, a part
 				{false, false, false, false, true, false, false, false, false}, // ... and two segments later
 			} {
 				for k := 0; k < streams; k++ {
 					out = append(out, scenario{Kind: "evict", Cfg: cfg, History: h,
 						Reqs:   []areq{{Kind: "path", Stream: k, PKind: "part", ID: uint64(s.Streams[k].NextPartID)}},
 						Frames: frames})
+				}
+			}
+		}
+	}
+	// the advertised preload-hint URI requested while the writer is INSIDE the part's finalize
+	// (parked in storage.Part.Writer(), muxer mutex held, part not yet published)
+	for _, streams := range []int{1, 2} {
+		cfg := mcfg{Variant: "LL", SegCount: 7, Streams: streams}
+		for _, h := range [][]bool{{true, false, false}, {true, false, false, true, false, false}, {true, false, false, false, false}} {
+			s, err := quickSnapshot(cfg, h, work)
+			if err != nil {
+				*errs = append(*errs, err.Error())
+				continue
+			}
+			for _, frames := range [][]bool{{false, false}, {true}} { // a mid-segment part; the last part of a segment
+				for gate := 0; gate < streams; gate++ {
+					for k := gate; k < streams; k++ {
+						for slot := 0; slot < 2; slot++ {
+							out = append(out, scenario{Kind: "finalize", Cfg: cfg, History: h, GateAt: gate,
+								Reqs:  []areq{{Kind: "path", Stream: k, PKind: "part", ID: uint64(s.Streams[k].NextPartID)}},
+								Slots: []int{slot}, Frames: frames})
+						}
+					}
 				}
 			}
 		}
@@ -700,11 +725,11 @@ func genClose(seed uint64, n int, thorough bool, work string, errs *[]string) []
 		st  snapStream
 	}
 	hists := [][]bool{
-		{},                               // before data
-		{true},                           // one sample queued, nothing created
-		{true, false},                    // first segment open, mid part
-		{true, false, false},             // mid segment, one part
-		{true, false, false, true},       // one complete segment, open segment empty
+		{},                                       // before data
+		{true},                                   // one sample queued, nothing created
+		{true, false},                            // first segment open, mid part
+		{true, false, false},                     // mid segment, one part
+		{true, false, false, true},               // one complete segment, open segment empty
 		{true, false, false, true, false, false}, // content, mid segment
 		{true, false, false, true, false, false, false},
 		// more complete segments than SegmentCount: real segments have been evicted before Close
